@@ -92,6 +92,10 @@ Definition pinned : quirks :=
   {| q_pmap_nilmap := true; q_eq_asint := true; q_copy_asint := true; q_stream_oneshot := true |}.
 Definition repaired : quirks :=
   {| q_pmap_nilmap := false; q_eq_asint := false; q_copy_asint := false; q_stream_oneshot := false |}.
+(* the tree after the fixes applied so far (e205164 Prototype.Map nil map, 2031d7f DeepEqual uint,
+   e31ecf7 streamBytes cursors): what is left is Copy reading Kind_Int through AsInt only *)
+Definition settled : quirks :=
+  {| q_pmap_nilmap := false; q_eq_asint := false; q_copy_asint := true; q_stream_oneshot := false |}.
 
 Inductive err := EWrongKind | ERepeatedKey | ENotExists | EInvalidSegment | EOverread | EOther.
 
